@@ -7,8 +7,9 @@ CONSTANTS
   SvcOf <- MCSvcOf3
   Manual <- MCManual
   MaxChanges = 100000000
+  MaxFaults = 100000000
   PoisonTables = FALSE
 CONSTRAINT HW
-INVARIANTS TypeOK QuiescentCorrect LastGood Isolation
+INVARIANTS TypeOK QuiescentCorrect LastGood Isolation RoutedWerePassing
 POSTCONDITION Accepted
 CHECK_DEADLOCK FALSE
